@@ -818,9 +818,20 @@ def add_static_route(v):
     v.expect_covers('registered', 'sinks-first', 'statics-first')
     asgi = v.choose(2, 'asgi-app?')
     t = Tables(v, asgi)
-    downloadable = bool(v.choose(2, 'downloadable?'))
-    prefix, directory = '/static/', '/var/tmp'
-    out = v.call(t.app, prefix, directory, downloadable=downloadable)
+    import os
+
+    # the optional arguments are handed on to the route object: each omitted or given (the fallback file must exist for the replay on the real class)
+    dk = v.choose(3, 'downloadable?')  # omitted / False / True
+    downloadable = dk == 2
+    fk = v.choose(3, 'fallback_filename?')  # omitted / None / a file in the directory
+    prefix, directory, some_file = '/static/', os.path.dirname(os.path.abspath(__file__)), os.path.basename(__file__)
+    fallback = some_file if fk == 2 else None
+    kw = {}
+    if dk:
+        kw['downloadable'] = downloadable
+    if fk:
+        kw['fallback_filename'] = fallback
+    out = v.call(t.app, prefix, directory, **kw)
     v.check('no-exception', out.exc is None)
     if out.exc is not None:
         return
@@ -830,9 +841,10 @@ def add_static_route(v):
     if ok:
         sr = entry[0]
         if v.concrete:
-            ok = type(sr) is SR and sr._prefix == prefix and sr._directory == directory and sr._downloadable == downloadable and sr._fallback_filename is None
+            ok = (type(sr) is SR and sr._prefix == prefix and sr._directory == directory and sr._downloadable == downloadable
+                  and sr._fallback_filename == (None if fallback is None else os.path.join(directory, fallback)))
         else:
-            ok = getattr(sr, '_cls', None) is SR and sr._fields.get('init_args') == (prefix, directory, downloadable, None)
+            ok = getattr(sr, '_cls', None) is SR and sr._fields.get('init_args') == (prefix, directory, downloadable, fallback)
     v.check('new-static-entry-is-route-route-false', ok)
     if not isinstance(entry, tuple):
         return
@@ -1484,8 +1496,9 @@ def meta_guard(v):
     if v.concrete:
         return _meta_guard_replay(v, asgi)
     req = GuardReq(v)
+    # both middleware modes (the guard precedes the mode switch; the stacks are empty: what middleware does is C03)
     app = app_obj(v, asgi, _request_type=Factory(req), _response_type=Factory(GuardResp()), req_options=Tok('req_options'), resp_options=Tok('resp_options'),
-                  _middleware=((), (), ()), _independent_middleware=True)
+                  _middleware=((), (), ()), _independent_middleware=bool(v.choose(2, 'independent_middleware')))
     if asgi:
         scope = {'type': 'http', 'asgi': {'version': '3.0', 'spec_version': '2.1'}, 'http_version': '1.1'}
         receive = Factory(Ready({'type': 'http.request'}))
@@ -1613,6 +1626,12 @@ KILLS = [
     ('falcon/asgi/app.py', '            if req.method in self._META_METHODS:\n', '            if False:\n', '__call__#meta-method-requests-never-reach-routing'),
     ('falcon/app.py', '            if req.method in self._META_METHODS:\n                raise HTTPBadRequest()\n',
      '            if req.method in self._META_METHODS:\n                raise HTTPRouteNotFound()\n', '__call__#meta-method-request-is-a-400'),
+    # the guard is applied in the default (independent) middleware mode only -- needs independent_middleware=False, which used to be fixed
+    ('falcon/app.py', '            if req.method in self._META_METHODS:\n                raise HTTPBadRequest()\n',
+     '            if self._independent_middleware and req.method in self._META_METHODS:\n                raise HTTPBadRequest()\n', '__call__#meta-method-requests-never-reach-routing'),
+    # add_static_route drops the fallback file name on the way to the route object -- needs fallback_filename given, which used to be omitted always
+    ('falcon/app.py', '            downloadable=downloadable,\n            fallback_filename=fallback_filename,\n', '            downloadable=downloadable,\n',
+     'add_static_route#new-static-entry-is-route-route-false'),
     # non-callable attributes are mapped
     ('falcon/routing/util.py', '            if callable(responder):\n', '            if True:\n', 'map_http_methods#maps-exactly-the-existing-callable-responders'),
     # default OPTIONS responder writes the wrong header / a different separator
@@ -1708,6 +1727,10 @@ ASSUMPTIONS = [
     'App.__init__: add_middleware, add_error_handler, router and option constructors are stubbed as no-ops on the tables',
     'a request method outside COMBINED_METHODS (and not implemented by the resource) on a matched route gets the bad-request default (400, "Invalid HTTP method"), '
     'as documented in _get_responder; the 405 sentence of the property is read for the methods falcon supports (COMBINED_METHODS), see set_default_responders',
+    'inputs left at one value: add_static_route is given the concrete prefix "/static/" and an existing directory (both only travel to the StaticRoute constructor, '
+    'which is stubbed as "records its arguments"; C16 proves the constructor); route_wiring registers the concrete template "/things" without the compile flag '
+    '(tree insertion and compilation: C01); meta_guard uses a fresh response (complete False) and empty middleware stacks (C03); App.__init__ is run with the '
+    'sink_before_static_route and cors_enable arguments only (no other argument reaches the tables)',
     'asgi.App.add_sink: inspect.iscoroutinefunction / falcon.util.is_python_func are opaque predicates of the sink, _should_wrap_non_coroutines an opaque flag, '
     'wrap_sync_to_async(f) returns a wrapper identified by f',
 ]
